@@ -24,10 +24,15 @@ def _load_chain(name):
 
 
 @functools.lru_cache(maxsize=None)
-def _load_key(name):
+def _key_text(name):
     with open(os.path.join(TESTS, name)) as f:
-        txt = f.read()
-    return parsePEMKey(txt, private=True, implementations=["python"])
+        return f.read()
+
+
+def _load_key(name):
+    """a FRESH key object per call: RSA keys carry state (blinding values created with random bytes on first use)
+    that must not leak from one scenario into the next one run by the same process"""
+    return parsePEMKey(_key_text(name), private=True, implementations=["python"])
 
 
 CREDS = {
